@@ -1,3 +1,4 @@
+import Grexv.Lemmas.RunShape
 import Grexv.Lemmas.EndToEndRV
 import Grexv.Model.Format
 import Grexv.Lemmas.Presentation
@@ -102,7 +103,9 @@ theorem capture_groups_same_language (env : Env) (ws : List Str) (st0 st1 : Stag
 
 /-- **C06 (non-ASCII escaping is presentation only — language level, all inputs without `-r`)** for every subset of
 the class options, with or without capturing groups and the case-insensitive option: the pattern built with `-e` (no
-surrogate pairs) and the one built without accept exactly the same strings of scalar values -/
+surrogate pairs) and the one built without accept exactly the same strings of scalar values.  Restrictions (`PlainPrintCI`): no
+`-r`, no verbose mode, no colour, no surrogate-pair conversion, at most one anchor disabled (with both disabled the self-check may keep
+a different expression per build: `verbose_bounds_any_anchor`, `C07.output_valid_any_anchor` bound each build separately) -/
 theorem escaping_same_language (cfg : Config) (hp : PlainPrintCI cfg) (env : Env) (ws : List Str)
     (stE st0 : Stages) (hE : regExpFrom (withEsc cfg true) env ws = .ok stE)
     (h0 : regExpFrom (withEsc cfg false) env ws = .ok st0)
@@ -114,7 +117,8 @@ theorem escaping_same_language (cfg : Config) (hp : PlainPrintCI cfg) (env : Env
   esc_same_language cfg hp env ws stE st0 hE h0 hseg hne s hs
 
 /-- **C06 (verbose mode is presentation only — language level, all inputs without `-r`, at least one anchor)** for every
-subset of the class options, with or without capturing groups, `-e`, `-i`: the verbose text (flag line, one lexeme group
+subset of the class options, with or without capturing groups, `-e`, `-i` (`PlainPrintCI`: no `-r` — see
+`verbose_same_language_with_repetitions` —, no colour, no surrogate-pair conversion, at most one anchor disabled): the verbose text (flag line, one lexeme group
 per line, indentation; `#`, blank and every other white-space character escaped) is accepted by the model of `Regex::new`
 with the `x` flag set, the text without verbose mode is accepted without it, and the two compiled patterns match exactly
 the same strings of scalar values in full.  Chain: `parseLoop_x` (under `(?x)` the parser reads the text without its
@@ -400,5 +404,55 @@ theorem groups_all_or_none_with_repetitions (cap esc i ns ne : Bool) (e : Expr) 
   · unfold postA at hp; split at hp
     · simp at hp
     · simp only [List.mem_singleton] at hp; subst hp; trivial
+
+theorem groupsAll_shape (cap esc ns ne : Bool) (e : Expr) :
+    Pat.GroupsAll cap (Spec.catList (preA ns ++ (topItems cap esc e ++ postA ne))) := by
+  apply groupsAll_catList
+  intro p hp
+  simp only [List.mem_append] at hp
+  rcases hp with hp | hp | hp
+  · unfold preA at hp; split at hp
+    · simp at hp
+    · simp only [List.mem_singleton] at hp; subst hp; trivial
+  · unfold topItems at hp
+    split at hp
+    · simp only [List.mem_singleton] at hp; subst hp; exact ⟨rfl, (both_groups cap esc e).2⟩
+    · exact (both_groups cap esc e).1 p hp
+  · unfold postA at hp; split at hp
+    · simp at hp
+    · simp only [List.mem_singleton] at hp; subst hp; trivial
+
+theorem groupsAll_shapeR (cap esc ns ne : Bool) (e : Expr) :
+    Pat.GroupsAll cap (Spec.catList (preA ns ++ (topItemsR cap esc e ++ postA ne))) := by
+  apply groupsAll_catList
+  intro p hp
+  simp only [List.mem_append] at hp
+  rcases hp with hp | hp | hp
+  · unfold preA at hp; split at hp
+    · simp at hp
+    · simp only [List.mem_singleton] at hp; subst hp; trivial
+  · unfold topItemsR at hp
+    split at hp
+    · simp only [List.mem_singleton] at hp; subst hp; exact ⟨rfl, (bothR_groups cap esc e).2⟩
+    · exact (bothR_groups cap esc e).1 p hp
+  · unfold postA at hp; split at hp
+    · simp at hp
+    · simp only [List.mem_singleton] at hp; subst hp; trivial
+
+/-- **C06 (all or none), on a run, all inputs**: in each of the four printing modes (plain or verbose, without or with `-r`; every subset of
+the class options, `-i`, `-e`, any anchors) the pattern the regex crate builds from what `build()` returns has only capturing groups
+when capturing groups are requested and none otherwise -/
+theorem run_groups_all_or_none (cfg : Config) (env : Env) (ws : List Str) (st : Stages)
+    (h : regExpFrom cfg env ws = .ok st) (hseg : ∀ w ∈ storedCases cfg env ws, SegOK env w)
+    (hlen : ∀ w ∈ storedCases cfg env ws, (clusterOfPieces (env.segOf w)).length ≤ 1000) (hws : ws ≠ [])
+    (hmode : PlainPrintNA cfg ∨ VerbosePrintNA cfg ∨ RepPrintNA cfg ∨ RepVerbose cfg) :
+    ∃ P, Spec.parse (fmtRegExp cfg st.finalAst) = some (⟨cfg.ci, cfg.verb⟩, P) ∧ Pat.GroupsAll cfg.cap P := by
+  have hlen' : ∀ w ∈ storedCases cfg env ws, (subPieces (env.segOf w)).length ≤ 1000 := fun w hw => by
+    have := hlen w hw; rwa [clusterOfPieces_eq, List.length_map] at this
+  rcases hmode with hp | hp | hp | hp
+  · exact ⟨_, by rw [(run_shape_plain cfg hp env ws st h hseg hws).2, hp.verb], groupsAll_shape _ _ _ _ _⟩
+  · exact ⟨_, by rw [(run_shape_verbose cfg hp env ws st h hseg hws).2, hp.verb], groupsAll_shape _ _ _ _ _⟩
+  · exact ⟨_, by rw [(run_shape_rep cfg hp env ws st h hseg hlen' hws).2, hp.verb], groupsAll_shapeR _ _ _ _ _⟩
+  · exact ⟨_, by rw [(run_shape_rep_verbose cfg hp env ws st h hseg hlen' hws).2, hp.verb], groupsAll_shapeR _ _ _ _ _⟩
 
 end Grexv.Props.C06
